@@ -297,6 +297,17 @@ def run_impl(case):
         data = {k: v_py(v) for k, v in case["data"]}
         try:
             fmt = LineProtocolFormatter(tags=targ, resolution=case["res"])
+            # a formatter serves many records: warm it up with earlier records that set every tag key and
+            # extra fields, then format the record under test (the output must not depend on the history)
+            if case.get("warm", True):
+                keys = (list(tags["iter"]) if tags and "iter" in tags else [k for k, _ in tags["map"]] if tags else [])
+                prior = {str(k): "prior value,=" for k in keys if isinstance(k, str)}
+                prior.update({"zz prior": 7, "zz_p": "x"})
+                for d in (prior, dict(data)):
+                    try:
+                        fmt.format(_record("warm up", d, 12345.0))
+                    except Exception:
+                        pass
             out = fmt.format(_record(case["name"], data, case["created"]))
         except Exception as e:
             return {"raised": _exc(e)}
@@ -306,6 +317,11 @@ def run_impl(case):
     from cobald.monitor.format_json import JsonFormatter
     try:
         fmt = JsonFormatter(fmt=case["defaults"], datefmt=case["datefmt"])
+        if case.get("warm", True) and isinstance(case["defaults"], dict):
+            try:
+                fmt.format(_record("warm up", dict({k: "prior" for k in case["defaults"]}, zz_prior=1), 12345.0))
+            except Exception:
+                pass
         rec = _record(case["name"], dict(case["data"]), case["created"])
         out = fmt.format(rec)
     except Exception as e:
